@@ -580,3 +580,94 @@ Theorem snapstate_unpinned : forall ik ig kt gt old new, pinned_for ik ig kt gt 
 Proof.
   intros ik ig kt gt old new Hp Hn. unfold resolve_channel. apply is_nil_b_false in Hn. rewrite Hn, Hp. reflexivity.
 Qed.
+
+(* ---------------------------------------------------------------- resolving twice equals resolving once *)
+
+Lemma track_is_head : forall cur ch, parse_verbatim [] cur dash = Some ch ->
+  is_nil_b (c_track ch) = true \/ (hd_comp cur = c_track ch /\ noslash (c_track ch)).
+Proof.
+  intros cur ch H. pose proof (parse_verbatim_shape _ _ _ _ H) as S. pose proof (split_noslash cur) as F.
+  inversion S; subst; cbn [c_track]; try (left; reflexivity); right;
+    match goal with X : _ = split_slash cur |- _ => symmetry in X; rewrite X in F; rewrite (hd_comp_split _ _ _ X) end;
+    inv_forall; (split; [reflexivity|assumption]).
+Qed.
+
+Lemma hd_comp_app : forall t x, noslash t -> hd_comp (t ++ slash :: x) = t.
+Proof. intros t x H. unfold hd_comp. rewrite split_app by assumption. reflexivity. Qed.
+
+Lemma hd_comp_single : forall t, noslash t -> hd_comp t = t.
+Proof. intros t H. unfold hd_comp. rewrite split_single by assumption. reflexivity. Qed.
+
+Theorem resolve_idempotent : forall cur new r ch,
+  parse_verbatim [] cur dash = Some ch -> is_risk (c_track ch) = false ->
+  resolve cur new = Some r -> resolve cur r = Some r.
+Proof.
+  intros cur new r ch Hp Hg H.
+  assert (Hcur : is_nil_b cur = false).
+  { unfold parse_verbatim in Hp. destruct (is_nil_b cur); [discriminate|reflexivity]. }
+  unfold resolve in H. rewrite Hcur, Hp in H.
+  destruct (is_nil_b new) eqn:Nn.
+  - inversion H; subst r. unfold resolve. rewrite Hcur, Hp.
+    destruct (track_is_head _ _ Hp) as [Nt|[Hh _]].
+    + rewrite Nt. cbn [negb]. rewrite andb_false_r. reflexivity.
+    + rewrite Hh, Hg. reflexivity.
+  - destruct (is_risk (hd_comp new) && negb (is_nil_b (c_track ch))) eqn:C.
+    + inversion H; subst r. apply andb_true_iff in C. destruct C as [_ Ct]. apply negb_true_iff in Ct.
+      destruct (track_is_head _ _ Hp) as [Nt|[_ Hn]]; [rewrite Nt in Ct; discriminate|].
+      unfold resolve. rewrite Hcur, Hp.
+      assert (Nr : is_nil_b (c_track ch ++ slash :: new) = false) by (apply nil_app_false; reflexivity).
+      rewrite Nr, (hd_comp_app _ _ Hn), Hg. reflexivity.
+    + inversion H; subst r. unfold resolve. rewrite Nn, Hcur, Hp, C. reflexivity.
+Qed.
+
+Theorem resolve_units : forall s, resolve s [] = Some s /\ resolve [] s = Some s.
+Proof. intros s. split; [reflexivity|]. unfold resolve. destruct (is_nil_b s) eqn:N; [apply is_nil_b_true in N; subst; reflexivity|reflexivity]. Qed.
+
+(* without the guard resolving twice differs from resolving once (same class as the recorded finding) *)
+Lemma resolve_idempotent_refuted : exists cur new r ch,
+  parse_verbatim [] cur dash = Some ch /\ resolve cur new = Some r /\ resolve cur r <> Some r.
+Proof.
+  exists bad_cur, bad_new. eexists. eexists.
+  split; [vm_compute; reflexivity|]. split; [vm_compute; reflexivity|]. vm_compute. discriminate.
+Qed.
+
+Lemma pinned_track_shape : forall track ch, parse_verbatim [] track dash = Some ch -> verbatim_track_only ch = true ->
+  c_track ch = track /\ noslash track /\ is_risk track = false.
+Proof.
+  intros track ch E Vo.
+  pose proof (parse_verbatim_shape _ _ _ _ E) as S. pose proof (split_noslash track) as F.
+  pose proof (join_split track) as J.
+  unfold verbatim_track_only in Vo. apply andb_true_iff in Vo. destruct Vo as [Vo Vb].
+  apply andb_true_iff in Vo. destruct Vo as [Vt Vr]. apply negb_true_iff in Vt.
+  inversion S; subst; cbn [c_track c_risk c_branch] in *; try congruence;
+    try (match goal with X : is_risk ?r = true, Y : is_nil_b ?r = true |- _ =>
+           rewrite (risk_not_nil _ X) in Y; discriminate end).
+  match goal with X : _ = split_slash track |- _ => rewrite <- X in J, F end.
+  simpl in J. subst t. inv_forall. auto.
+Qed.
+
+Theorem pinned_idempotent : forall track new r, resolve_pinned track new = POk r -> resolve_pinned track r = POk r.
+Proof.
+  intros track new r H. pose proof H as H0. unfold resolve_pinned in H.
+  destruct (is_nil_b track) eqn:Nt.
+  - unfold resolve_pinned. rewrite Nt. reflexivity.
+  - destruct (parse_verbatim [] track dash) as [ch|] eqn:E; [|discriminate].
+    destruct (verbatim_track_only ch) eqn:Vo; cbn [negb] in H; [|discriminate].
+    destruct (pinned_track_shape _ _ E Vo) as [Ect [Ns Rt]]. rewrite Ect in H.
+    assert (Self : resolve_pinned track track = POk track).
+    { unfold resolve_pinned. rewrite Nt, E, Vo. cbn [negb]. rewrite Ect, (hd_comp_single _ Ns), Rt.
+      cbn [andb]. rewrite beq_refl. reflexivity. }
+    destruct (is_nil_b new) eqn:Nn.
+    + inversion H; subst r. exact Self.
+    + destruct (is_risk (hd_comp new) && negb (is_nil_b track)) eqn:C.
+      * inversion H; subst r. clear H H0.
+        set (r := (track ++ [slash]) ++ new).
+        assert (Hr : r = track ++ slash :: new) by (unfold r; rewrite <- app_assoc; reflexivity).
+        assert (Hh : hd_comp r = track) by (rewrite Hr; apply hd_comp_app; exact Ns).
+        assert (Hp : has_prefix (track ++ [slash]) r = true) by (unfold r; apply has_prefix_self_app).
+        assert (Nr : is_nil_b r = false) by (rewrite Hr; apply nil_app_false; reflexivity).
+        unfold resolve_pinned. rewrite Nt, E, Vo. cbn [negb]. rewrite Ect, Nr, Hh, Rt, Hp. cbn [andb negb].
+        rewrite andb_false_r. reflexivity.
+      * destruct (negb (beq new track) && negb (has_prefix (track ++ [slash]) new)); [discriminate|].
+        inversion H; subst r. exact H0.
+Qed.
